@@ -33,6 +33,7 @@ func stdRedirects() map[string]string {
 		"(os.dirFS).ReadDir":     v + "DirFSReadDir",
 		"(os.dirFS).ReadFile":    v + "DirFSReadFile",
 
+		"runtime.NumCPU":          s + "NumCPU",
 		"crypto/sha256.New":       s + "SHA256New",
 		"encoding/json.Marshal":   s + "JSONMarshal",
 		"encoding/json.Unmarshal": s + "JSONUnmarshal",
